@@ -62,6 +62,19 @@ def _set(items):
     return mc.Expr("{" + ", ".join(items) + "}")
 
 
+def distinct_records(r):
+    """TLC evaluates a CONSTRAINT once per GENERATED state: a state reached by two workers at the same moment (or
+    revisited by the liveness check) is printed twice.  Records are compared as canonical JSON."""
+    import json
+    seen, out = set(), []
+    for rec in r.records:
+        k = json.dumps(rec, sort_keys=True)
+        if k not in seen:
+            seen.add(k)
+            out.append(rec)
+    return out
+
+
 def run_bagtrain(ck, name, scn=(), gen=(1, 0, 1), modes=("Shared",), kinds=("ISV",), iters=(0,), max_orders=1,
                  dev=(), invariants=INVARIANTS, export=True, expect_violation=False, coverage=False, workers=16):
     """One exhaustive TLC run of specs/BagTrain.tla.  scn: explicit (labels, composition) pairs; gen = (nmin, nmax,
